@@ -139,6 +139,7 @@ def _L(lib):
 
 def block(stmts, s, lib, res):
     o = Out(n=s)
+    dead = False
     for st in stmts:
         if o.n is None:
             # dead code: still walk it so that its uses are recorded as unreachable
@@ -148,9 +149,13 @@ def block(stmts, s, lib, res):
         r = stmt(st, o.n, lib, res)
         o.n = r.n
         if lib == "kf" and r.n is None:
-            # dead code is still analysed by the visitor, from the definitions it had before the jump (D39)
+            # D39: the rest of the block is dead, but the visitor still analyses it from the definitions it had before
+            # the jump; its jumps (break / continue) hand their scopes to the loop.  The block itself does not fall through.
             o.n = j(prev, defs_in(st))
+            dead = True
         o.b, o.c, o.r, o.e = j(o.b, r.b), j(o.c, r.c), j(o.r, r.r), j(o.e, r.e)
+    if dead:
+        o.n = None
     return o
 
 
